@@ -24,7 +24,7 @@ class C01(Prop):
         return False      # path / tree / spelling are interdependent: no structural shrinking
 
     def generate(self, rng, tier):
-        ntrees = 120 if tier == "quick" else 2500
+        ntrees = 180 if tier == "quick" else 2500
         out = []
         for _ in range(ntrees):
             root = rng.choice(["dict", "dict", "list"])
